@@ -237,6 +237,7 @@ class MibCompiler(object):
 
                         if mibname in failedMibs:
                             del failedMibs[mibname]
+                            processed.pop(mibname, None)
 
                         mibsToParse.extend(mibInfo.imported)
 
